@@ -1,5 +1,5 @@
 //@unit simmon
-//@props C08,C01
+//@props C08,C01,C18
 //@define mon
 //@verus --rlimit 150 --triggers-mode silent
 // Unit simmon: MONITOR PASS over the same text as units sim and sched (C08 "race-free", C01 under concurrent scheduling).
@@ -62,6 +62,10 @@ fn vpanic() -> ! { panic!() }
 
 // the monitor invariant of Mutex<SchedulerQueue>, relative to the current simulation time
 pub open spec fn inv(q: Seq<Entry>, now: u64) -> bool { sorted(q) && all_later(q, now) && no_zero_period(q) }
+// the clock is never synchronised ahead of the simulation time: together with "the time never decreases" and the precondition
+// of ClockBox::synchronize in this pass (t >= the last synchronised time) the times passed to synchronize never decrease,
+// whatever other threads schedule in between
+pub open spec fn sync_ok(s: Seq<u64>, now: u64) -> bool { s.len() > 0 ==> s.last() <= now }
 pub open spec fn all_ge(s: Seq<Entry>, t: u64) -> bool { forall|i: int| 0 <= i < s.len() ==> (#[trigger] s[i]).time >= t }
 
 // acquisition: whatever other threads left behind - ANY queue satisfying the invariant
@@ -96,6 +100,7 @@ impl Simulation {
     fn run(&mut self) -> (res: Result<(), ExecutionError>)
         ensures final(self).time.val() == old(self).time.val(),
             final(self).scheduler_queue.locked() == old(self).scheduler_queue.locked(),
+            final(self).clock.syncs() == old(self).clock.syncs(),
     { unimplemented!() }
 }
 
@@ -149,11 +154,13 @@ impl Simulation {
         //@[
         requires
             !old(self).scheduler_queue.locked(),
+            sync_ok(old(self).clock.syncs(), old(self).time.val()),
         ensures
             !final(self).scheduler_queue.locked(),                                               //@ C08 #lock-released-at-exit
             final(self).time.val() >= old(self).time.val(),                                      //@ C01 #time-never-decreases
+            sync_ok(final(self).clock.syncs(), final(self).time.val()),                          //@ C18 #clock-never-synchronised-ahead-of-the-time
             res matches Ok(Some(tm)) ==> tm.t == final(self).time.val() && tm.t <= upper_time_bound.t,
-            res matches Ok(None) ==> final(self).time.val() == old(self).time.val(),
+            res matches Ok(None) ==> final(self).time.val() == old(self).time.val() && final(self).clock.syncs() == old(self).clock.syncs(),
         //@]
     {
         // Function pulling the next action. If the action is periodic, it is
@@ -311,6 +318,7 @@ impl Simulation {
             //@[
             invariant
                 self.scheduler_queue.locked(),
+                self.clock.syncs() == old(self).clock.syncs(), sync_ok(old(self).clock.syncs(), old(self).time.val()),
                 t == current_key.0.t, self.time.val() == t, t >= old(self).time.val(), t <= upper_time_bound.t,
                 sorted(self.scheduler_queue.view()), no_zero_period(self.scheduler_queue.view()),
                 all_ge(self.scheduler_queue.view(), t),
@@ -348,6 +356,7 @@ impl Simulation {
                         self.scheduler_queue.view().len() > 0,
                     invariant
                         self.scheduler_queue.locked(),
+                        self.clock.syncs() == old(self).clock.syncs(),
                         t == current_key.0.t, self.time.val() == t, t >= old(self).time.val(),
                         sorted(self.scheduler_queue.view()), no_zero_period(self.scheduler_queue.view()),
                         all_ge(self.scheduler_queue.view(), t),
@@ -422,9 +431,11 @@ impl Simulation {
         requires
             !old(self).scheduler_queue.locked(),
             target_time.t >= old(self).time.val(),
+            sync_ok(old(self).clock.syncs(), old(self).time.val()),
         ensures
             !final(self).scheduler_queue.locked(),                                               //@ C08 #lock-released-at-exit
             final(self).time.val() >= old(self).time.val(),                                      //@ C01 #time-never-decreases
+            sync_ok(final(self).clock.syncs(), final(self).time.val()),                          //@ C18 #clock-never-synchronised-ahead-of-the-time
             res is Ok ==> final(self).time.val() == target_time.t,                               //@ C01 #reaches-target
         //@]
     {
@@ -433,13 +444,12 @@ impl Simulation {
             invariant
                 !self.scheduler_queue.locked(),
                 old(self).time.val() <= self.time.val() <= target_time.t,
+                sync_ok(self.clock.syncs(), self.time.val()),                                    //@ C18 #clock-never-synchronised-ahead-of-the-time
             //@]
         {
             match self.step_to_next_bounded(target_time) {
                 // The target time was reached exactly.
-                Ok(Some(t)) if t == target_time => {
-                    return Ok(())
-                },
+                Ok(Some(t)) if t == target_time => return Ok(()),
                 // No actions are scheduled before or at the target time.
                 Ok(None) => {
                     // Update the simulation time. The scheduler queue must be
